@@ -15,13 +15,22 @@
 (* Abstract schemas are records with a "kind" tag.  Fields of one name     *)
 (* have one type in every kind (TLC compares records field by field):      *)
 (*                                                                         *)
-(*   [kind: "int" | "float" | "string", min: Opt, max: Opt]                *)
+(*   [kind: "int" | "float" | "string", min: Opt, max: Opt,                *)
+(*        units: "none" | "bytes" | "time" | "custom"]                     *)
+(*        (units of an int / float: none, one of the SDK's package-level   *)
+(*         unit sets - bytes; nanoseconds for int, seconds for float - or  *)
+(*         a unit set the harness generates for the schema.  The statement *)
+(*         names no rule on units: different unit sets leave a pair open.) *)
 (*   [kind: "bool"] [kind: "pattern"] [kind: "any"]                        *)
 (*   [kind: "enum_int" | "enum_string", values: SUBSET Int, named: BOOLEAN]*)
 (*        (string enum values are tokens; the harness renders n as "v<n>"; *)
 (*         named = every value carries a display name)                     *)
-(*   [kind: "list", items: Schema, min: Opt, max: Opt]                     *)
-(*   [kind: "map", keys: Schema, vals: Schema, min: Opt, max: Opt]         *)
+(*   [kind: "list", items: Schema, min: Opt, max: Opt, impl: "plain"|"typed"]*)
+(*   [kind: "map", keys: Schema, vals: Schema, min: Opt, max: Opt,         *)
+(*        impl: "plain" | "typed"]                                         *)
+(*        (impl: NewListSchema / NewMapSchema or the typed variants        *)
+(*         NewTypedListSchema[T] / NewTypedMapSchema[K, V]; the rules on   *)
+(*         sizes and element types do not depend on it)                    *)
 (*   [kind: "object", id: STRING, props: SUBSET Prop, id_unenforced: BOOLEAN,*)
 (*        impl: "plain" | "mapped" | "typed"]                              *)
 (*        (impl: which Go value carries the object - NewObjectSchema,      *)
@@ -57,13 +66,16 @@ None    == [some |-> FALSE, v |-> 0]
 Some(x) == [some |-> TRUE, v |-> x]
 
 \* ------------------------------------------------------------------ constructors
-Scalar(k, mn, mx)      == [kind |-> k, min |-> mn, max |-> mx]
+ScalarU(k, mn, mx, u)  == [kind |-> k, min |-> mn, max |-> mx, units |-> u]
+Scalar(k, mn, mx)      == ScalarU(k, mn, mx, "none")
 BoolS                   == [kind |-> "bool"]
 PatternS                == [kind |-> "pattern"]
 AnyS                    == [kind |-> "any"]
 Enum(k, vs, named)     == [kind |-> k, values |-> vs, named |-> named]
-List(it, mn, mx)       == [kind |-> "list", items |-> it, min |-> mn, max |-> mx]
-Map(ks, vs, mn, mx)    == [kind |-> "map", keys |-> ks, vals |-> vs, min |-> mn, max |-> mx]
+ListI(it, mn, mx, impl) == [kind |-> "list", items |-> it, min |-> mn, max |-> mx, impl |-> impl]
+List(it, mn, mx)       == ListI(it, mn, mx, "plain")
+MapI(ks, vs, mn, mx, impl) == [kind |-> "map", keys |-> ks, vals |-> vs, min |-> mn, max |-> mx, impl |-> impl]
+Map(ks, vs, mn, mx)    == MapI(ks, vs, mn, mx, "plain")
 PropX(n, t, req, dflt, dis) == [name |-> n, required |-> req, type |-> t, has_default |-> dflt, disabled |-> dis]
 Prop(n, t, req)        == PropX(n, t, req, FALSE, FALSE)
 ObjectI(id, ps, unenf, impl) == [kind |-> "object", id |-> id, props |-> ps, id_unenforced |-> unenf, impl |-> impl]
@@ -187,6 +199,18 @@ Plain(S) ==
       [] S.kind = "oneof"  -> [S EXCEPT !.members = {Member(m.key, Plain(m.obj)) : m \in @}]
       [] OTHER             -> S
 
+\* HasUnits(S): some int / float of S carries a unit set of its own (the "a" / "b" histories of CompatMC
+\* apply to such sides; the package-level sets are always in the used state)
+RECURSIVE HasUnits(_)
+HasUnits(S) ==
+    CASE S.kind \in {"int", "float"} -> S.units = "custom"
+      [] S.kind = "list"   -> HasUnits(S.items)
+      [] S.kind = "map"    -> HasUnits(S.keys) \/ HasUnits(S.vals)
+      [] S.kind = "object" -> \E p \in S.props : HasUnits(p.type)
+      [] S.kind = "scope"  -> \E o \in S.objects : HasUnits(o)
+      [] S.kind = "oneof"  -> \E m \in S.members : HasUnits(m.obj)
+      [] OTHER             -> FALSE
+
 \* Describe / Rebuild are the identity on abstract schemas (the description carries exactly
 \* the fields of the AST); what the real SelfSerialize + UnserializeScope do to the Go values
 \* is what the harness exercises in its "rebuilt" modes.  Equality of abstract schemas includes the
@@ -213,6 +237,9 @@ VerdictOK(A, B, verdict) ==
 \* struct-mapped and typed objects are bound to ONE Go struct of the harness with a field for each of these
 \* names; they have no ID-unenforced variant; scope tables and one-of members hold plain or mapped objects
 MappedNames == {"p", "q", "r", "s", "v", "next", "x", "y", "z", "c"}
+\* typed lists and maps are instantiated by the harness over scalar element types
+TypedItemKinds == {"int", "float", "string", "bool"}
+UnitSets == {"none", "bytes", "time", "custom"}
 DefaultKinds == {"int", "float", "string", "bool", "enum_int", "enum_string"}
 KeyKinds == {"int", "string", "enum_int", "enum_string"}
 BoundsOK(S) == /\ (S.min.some => S.min.v >= 0) /\ (S.max.some => S.max.v >= 0)
@@ -220,12 +247,17 @@ BoundsOK(S) == /\ (S.min.some => S.min.v >= 0) /\ (S.max.some => S.max.v >= 0)
 
 RECURSIVE WF(_, _)
 WF(S, table) ==
-    CASE S.kind \in {"int", "float", "string"} -> BoundsOK(S)
+    CASE S.kind \in {"int", "float", "string"} ->
+            BoundsOK(S) /\ S.units \in UnitSets /\ (S.kind = "string" => S.units = "none")
       [] S.kind \in {"bool", "pattern", "any"} -> TRUE
       [] S.kind \in {"enum_int", "enum_string"} -> S.values # {}
       [] S.kind = "list" -> BoundsOK(S) /\ WF(S.items, table)
+                            /\ S.impl \in {"plain", "typed"}
+                            /\ (S.impl = "typed" => S.items.kind \in TypedItemKinds)
       [] S.kind = "map"  -> BoundsOK(S) /\ S.keys.kind \in KeyKinds
                             /\ WF(S.keys, table) /\ WF(S.vals, table)
+                            /\ S.impl \in {"plain", "typed"}
+                            /\ (S.impl = "typed" => S.keys.kind \in {"int", "string"} /\ S.vals.kind \in TypedItemKinds)
       [] S.kind = "object" ->
             /\ \A p \in S.props, q \in S.props : p.name = q.name => p = q
             /\ \A p \in S.props : WF(p.type, table) /\ (p.has_default => p.type.kind \in DefaultKinds)
